@@ -63,4 +63,17 @@ laneE() {
 ev C12 5 zz_demo_test.go . -- C12
 ev C12 6 zz_demo_test.go . -- C12
 }
+laneF() {
+ev C15 5 internal/transport/zz_demo_test.go ./internal/transport -- C15 C14
+ev C15 6 internal/transport/zz_demo_send_test.go ./internal/transport -- C15
+ev C17 5 internal/transport/zz_demo_test.go ./internal/transport -- C15 C17
+ev C19 5 internal/raft/zz_demo_test.go ./internal/raft -- C19 C02
+ev C19 6 internal/logdb/zz_demo_test.go ./internal/logdb -- C19
+}
+laneG() {
+ev C17 6 zz_demo_test.go . -- C17 C11
+ev C11 5 internal/rsm/zz_demo_test.go ./internal/rsm -- C11 C08
+ev C11 6 zz_demo_test.go . -- C11
+ev C20 5 tools/zz_demo_test.go ./tools -- C20
+}
 "$@"
